@@ -8,6 +8,7 @@ from atomica.model import TimedCompartment, TimedLink
 
 from mc import simspace
 from mc.oracles import V
+from mc.snapshot import snap_hash
 from mc.build import World, make_ts
 from mc.props import c06
 
@@ -237,6 +238,7 @@ def run_case(case):
         _, target, interp = kind.split(":")
         base = w.run(progs=False)
         a = arrays(base)
+        h_parset = snap_hash(w.parset)
         for Y in ys(t, dt):
             scen = at.ParameterScenario(name="s", interpolation=interp)
             if target == "age":
@@ -263,6 +265,9 @@ def run_case(case):
                 v1, v2 = dict(vr=(0.8, 0.1), pb=(0.9, 0.2), pa=(0.9, 0.1), br=(50.0, 1.0), rec=(0.9, 0.05), p1=(0.9, 0.05), drv=(0.6, 0.01), p2=(0.2, 0.3))[target]
                 scen.add(target, pop, [Y, Y + 1.0], [v1, v2])
             ps2 = scen.get_parset(w.parset, w.P)
+            if snap_hash(w.parset) != h_parset:
+                vs.append(V("scenario-modified-callers-parset", f"{lab0} Y={Y!r}: building the scenario's parameter set changed the parameter set it was built from (the baseline of every later comparison)", None))
+                break
             r2 = w.P.run_sim(ps2, store_results=False)
             b2 = arrays(r2)
             v, n = compare_before(a, b2, t, Y, f"{lab0} Y={Y!r}")
